@@ -56,7 +56,14 @@ def _params(c):
             sv = v.__name__ if isinstance(v, type) else str(v)
         except Exception:
             sv = "?"
-        out.append([k, type(v).__name__, repr(v)[:200], sv[:200]])
+        tn = type(v).__name__
+        try:
+            from pymtl3.datatypes import is_bitstruct_class
+            if isinstance(v, type) and is_bitstruct_class(v):
+                tn = "bitstruct-class"
+        except Exception:
+            pass
+        out.append([k, tn, repr(v)[:200], sv[:200]])
     return out
 
 
@@ -128,6 +135,8 @@ def main():
             for b in order:
                 ent["alone"][b] = _translate(build, PS[b], i)
             out["insts"].append(ent)
+    import time
+    out["cpu_s"] = round(time.process_time(), 2)
     with open(outp, "w") as f:
         json.dump(out, f)
 
